@@ -68,7 +68,7 @@ def verify(pid, mk, root="/tmp/wt", prefix=""):
     return True
 
 
-SCRATCH = "/tmp/seedrun"
+SCRATCH = os.environ.get("SEEDRUN", "/tmp/seedrun")
 
 
 def run_scratch(name, tier="quick", pid=None):
